@@ -158,6 +158,8 @@ func main() {
 		c03(os.Args[2:])
 	case "c08":
 		c08(os.Args[2:])
+	case "c08-child":
+		c08Child(os.Args[2:])
 	default:
 		vio.Fatal("unknown command %s", os.Args[1])
 	}
